@@ -116,7 +116,16 @@ def build(ctx, case, db):
         prog.append(" %d PUNCH %s" % (ln, ", ".join(items[i:i + 5])))
         ln += 10
     sel = ("SELECTED_OUTPUT 1\n -reset false\n -state true\n -gases %s\nUSER_PUNCH 1\n -headings %s\n -start\n%s\n -end\n" % (" ".join(gases), " ".join(heads), "\n".join(prog)))
-    text = "KNOBS\n -convergence_tolerance 1e-12\n -iterations 300\n" + sel + sol + "END\nUSE solution 1\n" + blocks + react + "END\n"
+    # history: in half of the cases the instance has evaluated the same gases at another temperature before (everything cached per gas must be refreshed)
+    warm = ""
+    if r.random() < 0.5:
+        t2 = round(r.uniform(1, 200), 1)
+        if abs(t2 - temp) < 5:
+            t2 = temp + 30 if temp < 150 else temp - 60
+        warm = ("SOLUTION 9\n temp %s\n pH 7 charge\n Na 10\n Cl 10\nGAS_PHASE 9\n -fixed_pressure\n -pressure %s\n -volume 1\n -temperature %s\n" % (f(t2), f(gens.loguni(r, 1, 300)), f(t2))
+                + "".join(" %s %s\n" % (g, f(r.uniform(0.2, 2))) for g in gases) + "END\n")
+        info["warm_temp"] = t2
+    text = "KNOBS\n -convergence_tolerance 1e-12\n -iterations 300\n" + sel + warm + sol + "END\nUSE solution 1\n" + blocks + react + "END\n"
     return text, info
 
 
